@@ -238,7 +238,9 @@ func Thrift(r *hx.Rng, small bool) Frame {
 		{"messageSize", 0, 4, uint64(len(m))}, {"messageLen2", 6, 4, uint64(len(m))}, {"headerLen", 10, 2, uint64(headerLen)}}}
 }
 
-// Tars builds a tars request or response package with TarsGo's own writer.
+// Tars builds a tars request or response package with TarsGo's own writer. iRet is 0 or >= 32768: getStreamType
+// (tars/protocol.go) recognises a response only when tag 5 is encoded as INT or ZERO_TAG, so responses with iRet in
+// 1..32767 or negative small values (BYTE/SHORT encoding) are refused by the pinned decoder (a C01 matter, reported).
 func Tars(r *hx.Rng, small bool) Frame {
 	kind := r.PickS([]string{"req", "resp"})
 	os := codec.NewBuffer()
@@ -256,7 +258,7 @@ func Tars(r *hx.Rng, small bool) Frame {
 		p.WriteTo(os)
 	} else {
 		p := &requestf.ResponsePacket{IVersion: 1, CPacketType: 0, IRequestId: int32(r.U64() >> 40), IMessageType: 0,
-			IRet: int32(r.Intn(3)), SBuffer: body, Status: map[string]string{}, SResultDesc: "ok", Context: map[string]string{}}
+			IRet: int32(r.Pick([]int{0, 0, 70000})), SBuffer: body, Status: map[string]string{}, SResultDesc: "ok", Context: map[string]string{}}
 		p.WriteTo(os)
 	}
 	bs := os.ToBytes()
